@@ -46,5 +46,119 @@ theorem valLex_round : valLex.Round := by
     · obtain ⟨⟨rfl, h1⟩, h2⟩ := ht; exact ⟨normZero_lt h1, normZero_lt h2⟩
   · cases b <;> cases v <;> simp_all [basicHasType, normLeaf, leafEq, finiteFloats, fltEq_normZero]
 
+/-! ## Spines -/
+
+/-- append on `scons` spines (anything that is not a `scons` ends the left spine) -/
+def sapp : Val → Val → Val
+  | .scons h t, ys => .scons h (sapp t ys)
+  | _, ys => ys
+
+theorem slen_scons (h t : Val) : (Val.scons h t).slen = t.slen + 1 := rfl
+
+theorem sapp_scons (h t ys : Val) : sapp (.scons h t) ys = .scons h (sapp t ys) := rfl
+
+theorem setNth_sapp (v z t : Val) : ∀ pre : Val,
+    setNth pre.slen v (sapp pre (.scons z t)) = some (sapp pre (.scons v t)) := by
+  intro pre
+  induction pre with
+  | scons h r _ ihr => rw [slen_scons, sapp_scons, sapp_scons, setNth, ihr]; rfl
+  | _ => rfl
+
+theorem sapp_single_assoc (y rest : Val) : ∀ pre : Val,
+    sapp (sapp pre (.scons y .snil)) rest = sapp pre (.scons y rest) := by
+  intro pre
+  induction pre with
+  | scons h r _ ihr => rw [sapp_scons, sapp_scons, sapp_scons, ihr]
+  | _ => rfl
+
+theorem slen_sapp_single (y : Val) : ∀ pre : Val, (sapp pre (.scons y .snil)).slen = pre.slen + 1 := by
+  intro pre
+  induction pre with
+  | scons h r _ ihr => rw [sapp_scons, slen_scons, slen_scons, ihr]
+  | _ => rfl
+
+/-! ## The relation "evaluated value `v'` is a good image of the original `v`" -/
+
+/-- `v'` is well-typed, structurally equal to `v` (nil-ness included), and lives at addresses `≥ n0` -/
+def Rel1 (env : Env) (n0 : Nat) (T : Ty) (v v' : Val) : Prop :=
+  hasType env T v' = true ∧ Spec.structEq env T v v' = true ∧ ∀ a ∈ addrs v', n0 ≤ a
+
+def SeqRel (env : Env) (n0 : Nat) (E : Ty) : Val → Val → Prop
+  | .scons x r, .scons y s => Rel1 env n0 E x y ∧ SeqRel env n0 E r s
+  | .snil, .snil => True
+  | _, _ => False
+
+def FldRel (env : Env) (n0 : Nat) : Ty → Val → Val → Prop
+  | .fcons F rest, .scons x r, .scons y s => Rel1 env n0 F x y ∧ FldRel env n0 rest r s
+  | .fnil, .snil, .snil => True
+  | _, _, _ => False
+
+def EntRel (env : Env) (n0 : Nat) (K V : Ty) : Val → Val → Prop
+  | .scons (.pair k v) r, .scons (.pair k' v') s =>
+    Rel1 env n0 K k k' ∧ Rel1 env n0 V v v' ∧ EntRel env n0 K V r s
+  | .snil, .snil => True
+  | _, _ => False
+
+theorem Rel1.congr {env : Env} {n0 : Nat} {T T' : Ty} {v v' : Val} (h : env.under T = env.under T')
+    (r : Rel1 env n0 T v v') : Rel1 env n0 T' v v' :=
+  ⟨by rw [← hasType_congr h]; exact r.1, by rw [← structEq_congr h]; exact r.2.1, r.2.2⟩
+
+theorem addrs_scons (h t : Val) : addrs (.scons h t) = addrs h ++ addrs t := by simp [addrs]
+
+theorem SeqRel.out {env : Env} {n0 : Nat} {E : Ty} : ∀ {xs ys : Val}, SeqRel env n0 E xs ys →
+    allHaveType env E ys = true ∧ Spec.seqEq env E xs ys = true ∧ (∀ a ∈ addrs ys, n0 ≤ a) ∧
+      ys.slen = xs.slen := by
+  intro xs
+  induction xs with
+  | snil =>
+    intro ys h
+    cases ys <;> simp [SeqRel] at h
+    refine ⟨by rw [allHaveType.eq_def], by rw [Spec.seqEq.eq_def], by simp [addrs], rfl⟩
+  | scons x r _ ihr =>
+    intro ys h
+    cases ys with
+    | scons y s =>
+      simp only [SeqRel] at h
+      obtain ⟨h1, h2, h3, h4⟩ := ihr h.2
+      refine ⟨?_, ?_, ?_, ?_⟩
+      · rw [allHaveType.eq_def]; simp [h.1.1, h1]
+      · rw [Spec.seqEq.eq_def]; simp [h.1.2.1, h2]
+      · intro a ha
+        rw [addrs_scons, List.mem_append] at ha
+        cases ha with
+        | inl ha => exact h.1.2.2 a ha
+        | inr ha => exact h3 a ha
+      · rw [slen_scons, slen_scons, h4]
+    | _ => simp [SeqRel] at h
+  | _ => intro ys h; simp [SeqRel] at h
+
+theorem FldRel.out {env : Env} {n0 : Nat} : ∀ {fs : Ty} {xs ys : Val}, FldRel env n0 fs xs ys →
+    fieldsHaveType env fs ys = true ∧ Spec.fieldsEq env fs xs ys = true ∧ (∀ a ∈ addrs ys, n0 ≤ a) := by
+  intro fs
+  induction fs with
+  | fnil =>
+    intro xs ys h
+    cases xs <;> cases ys <;> simp [FldRel] at h
+    refine ⟨by rw [fieldsHaveType.eq_def], by rw [Spec.fieldsEq.eq_def], by simp [addrs]⟩
+  | fcons F rest _ ihr =>
+    intro xs ys h
+    cases xs with
+    | scons x r =>
+      cases ys with
+      | scons y s =>
+        simp only [FldRel] at h
+        obtain ⟨h1, h2, h3⟩ := ihr h.2
+        refine ⟨?_, ?_, ?_⟩
+        · rw [fieldsHaveType.eq_def]; simp [h.1.1, h1]
+        · rw [Spec.fieldsEq.eq_def]; simp [h.1.2.1, h2]
+        · intro a ha
+          rw [addrs_scons, List.mem_append] at ha
+          cases ha with
+          | inl ha => exact h.1.2.2 a ha
+          | inr ha => exact h3 a ha
+      | _ => simp [FldRel] at h
+    | _ => simp [FldRel] at h
+  | _ => intro xs ys h; simp [FldRel] at h
+
 end GoString
 end Goderive
